@@ -331,9 +331,11 @@ fn run_set<S: PS>(ctx: &Ctx) -> Acc {
             let cx = gen::context(&mut g, cl);
             let mp = r::format_message(mode, &m, &cx).unwrap();
             let z: Vec<Poly> = (0..p.l).map(|_| core::array::from_fn(|_| g.range(-1000, 1000))).collect();
+            // weights: usually somewhere in the middle; every third job the completely full vector (no padding
+            // left) and, where the malformation allows it, nearly empty ones
             let w = match mal {
-                HintMal::Padding => g.below(p.omega as u64) as usize,
-                _ => 2 + g.below((p.omega - 2) as u64) as usize,
+                HintMal::Padding => if ji % 3 == 1 { 0 } else { g.below(p.omega as u64) as usize },
+                _ => if ji % 3 == 0 { p.omega } else if ji % 3 == 1 { 2 } else { 2 + g.below((p.omega - 2) as u64) as usize },
             };
             let h = gen::hint_with_weight(&mut g, p, w, if mal == HintMal::Duplicate || mal == HintMal::Swap { 2 } else { 0 });
             let y = r::hint_bit_pack(&h, p.omega);
